@@ -229,7 +229,11 @@ def composite(res):
           'SELECT sum(d), sum(i), min(d), max(i), first(d), last(i), count(d) FROM #t WHERE i IS NULL', 'SELECT b, sum(d), sum(j) FROM #t GROUP BY b', 'SELECT sum(d) + 1, sum(d) FROM #t WHERE d IS NULL',
           'SELECT i AND TRUE, d AND TRUE, s AND TRUE, TRUE AND i, i AND d AND s FROM #t', 'SELECT i OR FALSE, d OR FALSE, s OR FALSE, FALSE OR s, NOT i, NOT s FROM #t',
           'SELECT x, y FROM (SELECT i AND TRUE AS x, s OR FALSE AS y FROM #t)', 'SELECT s, t FROM (SELECT i, i, s, t FROM #t)', 'SELECT length(s), t FROM (SELECT d, d, s, t FROM #t)',
-          'SELECT k, s FROM (SELECT i AS k, d AS k, s FROM #t)', 'SELECT sum(b), sum(i > 0), count(b) FROM #t', 'SELECT s, sum(i = 1) FROM #t GROUP BY s']
+          'SELECT k, s FROM (SELECT i AS k, d AS k, s FROM #t)', 'SELECT sum(b), sum(i > 0), count(b) FROM #t', 'SELECT s, sum(i = 1) FROM #t GROUP BY s',
+          # accepted statements whose later phases compare values: NULL keys in ORDER BY, DISTINCT and both PIVOT BY columns, intervals
+          'SELECT s, b, sum(i) FROM #t GROUP BY s, b PIVOT BY s, b', 'SELECT b, s, count(*) FROM #t GROUP BY 1, 2 PIVOT BY 1, 2', 'SELECT t, i, sum(d) FROM #t GROUP BY t, i PIVOT BY t, i',
+          'SELECT s, sum(d) FROM #t GROUP BY s ORDER BY s DESC', 'SELECT DISTINCT t, b FROM #t ORDER BY t, b', "SELECT t - interval('1 day'), t + interval('1 month'), interval('1 day') + t FROM #t",
+          "SELECT interval('1 month') - t FROM #t", "SELECT interval('2 days') - interval('1 day') FROM #t", 'SELECT round(d), round(d, 1), round(i), round(sum(d)) FROM #t']
     for q in qs:
         res.case(q)
         try:
